@@ -137,9 +137,9 @@ def k_glue(pat: str, loc: str) -> str:
 
 # ----------------------------------------------------------------------- W
 PATTERNS = ['*', '?', 'a', 'A', 'a*', '*.o', '[ab]', '[!a]', '/v/d/a', '/v/d/*', '/*', '[*]', 'a?', '*a*', '/v/e/a',
-            '/h/w/a', 'b.o', '??', '*[*?]*', '[a-c]', 'ab', '/v/*/a', '/v/d/[ab]*', 'a b', '*\n*', '/']
-NAMES = ['a', 'A', 'ab', 'b.o', '*', '?a', '[ab]', 'a b', 'c', 'x\ny']
-SETS = [[0, 1, 2], [3, 4, 5], [6, 7, 8], [0, 9, 4], [0, 1, 2, 3, 4, 5, 6, 7, 8, 9]]
+            '/h/w/a', 'b.o', '??', '*[*?]*', '[a-c]', 'ab', '/v/*/a', '/v/d/[ab]*', 'a b', '*\n*', '/', 'a+b', 'a b', 'c++', 'c  ', 'a?b']
+NAMES = ['a', 'A', 'ab', 'b.o', '*', '?a', '[ab]', 'a b', 'c', 'x\ny', 'a+b', 'c++']
+SETS = [[0, 1, 2], [3, 4, 5], [6, 7, 8], [0, 9, 4], [0, 1, 2, 3, 4, 5, 6, 7, 8, 9], [7, 10, 11]]
 # placement of entry j: (trash dir, original dir)
 PLACES = [('/v/.Trash-1000', '/v/d'), ('/v/.Trash/1000', '/v/e'), ('/h/.local/share/Trash', '/h/w'), ('/v/.Trash-1000', '/v/e'),
           ('/w/.Trash-1000', '/w/d')]  # (/w: a second volume that shares its device string with /v)
@@ -154,7 +154,8 @@ def _case(pat, eset, shift, dupe):
             td, od = PLACES[(j + shift) % 5]
             loc = od + '/' + NAMES[ni]
             pv = loc if td.startswith('/h') else loc[len('/v/'):]  # (/v/ and /w/ have the same length)
-            nodes += K.trashed(td, 'e%d' % j, K.quote(pv), '2020-01-01T00:00:00', K.KINDS[(j + shift) % 6], 2000 + 20 * j)
+            # (a '+' is written literally, as other implementations do: it stands for itself, not for a space)
+            nodes += K.trashed(td, 'e%d' % j, pv if '+' in pv else K.quote(pv), '2020-01-01T00:00:00', K.KINDS[(j + shift) % 6], 2000 + 20 * j)
             entries.append((td, 'e%d' % j, loc))
             if dupe and j == 0:
                 td2, od2 = PLACES[(j + shift + 1) % 5]
@@ -198,10 +199,10 @@ def _case(pat, eset, shift, dupe):
 def w_main(pat: int, eset: int, shift: int, dupe: bool) -> str:
     """
     pre: PARTITION is None or eset == PARTITION
-    pre: 0 <= pat < 26 and 0 <= eset < 5 and 0 <= shift < 5
+    pre: 0 <= pat < 31 and 0 <= eset < 6 and 0 <= shift < 5
     post: _ == ''
     """
-    return _case(rt.sel(pat, 26), rt.sel(eset, 5), rt.sel(shift, 5), rt.selb(dupe))
+    return _case(rt.sel(pat, 31), rt.sel(eset, 6), rt.sel(shift, 5), rt.selb(dupe))
 
 
 def obligations(tier):
@@ -209,7 +210,7 @@ def obligations(tier):
         CH('K_filter_glue_all_strings', MOD, 'k_glue', timeout=240, engine='K', regime='traced',
            encodes=['trashcli.rm.filter.Filter.matches'], stubs=['fnmatch.fnmatchcase -> recorder'],
            bounds='pattern: any str 1<=len<=3; location: any absolute str len<=5'),
-        CH('W_pattern_x_names', MOD, 'w_main', timeout=900, partitions=list(range(5)), engine='W', regime='selector',
+        CH('W_pattern_x_names', MOD, 'w_main', timeout=900, partitions=list(range(6)), engine='W', regime='selector',
            encodes=K.RM_FUNCS, stubs=K.STUBS,
-           bounds='26 patterns x 5 name sets (10 names) x 5 placements over 4 trash dirs on 3 volumes (two of them with the same device string) x duplicate base name'),
+           bounds='31 patterns x 6 name sets (12 names, incl. a+b, c++) x 5 placements over 4 trash dirs on 3 volumes (two of them with the same device string) x duplicate base name'),
     ]
